@@ -77,6 +77,9 @@ def grid_case(ctx, rng, idx, stats):
         if ok and ts2.num_edges > 0:
             ts = ts2
             fired.append("polytomy")
+    if rng.random() < 0.35:
+        ts, _ = gen.permute_nodes(ts, rng)       # node ids no longer in time order
+        fired.append("permuted")
     distr = str(rng.choice(["lognorm", "gamma"]))
     pop, pop_mode = gen_pop(rng)
     tps, tp_mode = gen_timepoints(rng)
